@@ -139,6 +139,9 @@ func newInterpreter(cfg *Config, ex *Exec) *interpreter {
 	o, _ := prepareOnce.LoadOrStore(i.prog, new(sync.Once))
 	o.(*sync.Once).Do(func() { prepareProgram(i.prog) })
 	initReflect(i)
+	if ex != nil && !ex.bootstrap {
+		i.shared = sharedGlobalsOf(cfg)
+	}
 	return i
 }
 
@@ -519,4 +522,62 @@ func (ex *Exec) endOfPath() {
 		w.Observed = append(w.Observed, o.render(ex.model, memo))
 	}
 	ex.witnessBuf = append(ex.witnessBuf, w)
+}
+
+// sharedInitPkgs are packages whose package-level state is written only by
+// their own init (pure tables). Their init runs once per program and the
+// resulting globals are shared read-only by all paths and workers.
+var sharedInitPkgs = map[string]bool{
+	"unicode": true, "unicode/utf8": true, "unicode/utf16": true, "math": true, "math/bits": true,
+	"strconv": true, "golang.org/x/tools/internal/stdlib": true, "debug/elf": true, "go/token": true,
+	"compress/flate": true, "html": true, "debug/dwarf": true, "debug/macho": true, "debug/pe": true,
+	"go/doc/comment": true, "regexp/syntax": true, "encoding/base64": true, "encoding/hex": true, "encoding/binary": true,
+	"strings": true, "bytes": true, "fmt": true, "io": true, "unicode/utf8_test": false, "text/tabwriter": true, "sort": true, "slices": true,
+	"go/constant": false, "math/big": true, "encoding/base32": true, "mime": false, "hash/crc32": false,
+}
+
+var sharedOnce sync.Map // *ssa.Program -> *sharedState
+
+type sharedState struct {
+	once sync.Once
+	g    map[*ssa.Global]*value
+}
+
+func sharedGlobalsOf(cfg *Config) map[*ssa.Global]*value {
+	v, _ := sharedOnce.LoadOrStore(cfg.Main.Prog, &sharedState{})
+	st := v.(*sharedState)
+	st.once.Do(func() {
+		ex := &Exec{ctx: smt.NewCtx(), bootstrap: true, reached: map[string]bool{}, stubs: map[string]value{},
+			drawBounds: map[string]int64{}, funcs: map[string]int64{}, model: map[string]uint64{}, modelOK: true}
+		i := newInterpreter(cfg, ex)
+		i.cfg = cfg
+		i.bootstrap = true
+		i.noSpec = true
+		ex.in = i
+		defer func() {
+			if r := recover(); r != nil {
+				fmt.Fprintf(os.Stderr, "gosx: shared init failed (%v); falling back to per-path init\n", r)
+				st.g = nil
+			}
+		}()
+		var names []string
+		for p := range sharedInitPkgs {
+			names = append(names, p)
+		}
+		sort.Strings(names)
+		for _, p := range names {
+			if !sharedInitPkgs[p] {
+				continue
+			}
+			for _, pkg := range cfg.Main.Prog.AllPackages() {
+				if pkg.Pkg.Path() == p {
+					if f := pkg.Func("init"); f != nil {
+						call(i, nil, token.NoPos, f, nil)
+					}
+				}
+			}
+		}
+		st.g = i.globals
+	})
+	return st.g
 }
